@@ -209,5 +209,24 @@ def step (s : Unit) (toks : List String) : Unit × String :=
     | _, _, _, _ => "bad-op"
   | _ => "bad-op"
   (s, out)
+/-- stateful ops: ONE proof context object is kept (`ctx`) and used for many `cverify`/`cpart`
+    with different decisions. The model's context is stateless: the answer depends only on the
+    validators and the current proof. -/
+def step2 (s : Option (String × String)) (toks : List String) : Option (String × String) × String :=
+  match toks with
+  | ["reset"] => (none, "ok")
+  | ["ctx", p2, vals] =>
+    if (p2 = "ek" ∨ p2 = "eb" ∨ p2 = "ik" ∨ p2 = "ib") ∧ (mapAll parseVal (splitList vals)).isSome
+    then (some (p2, vals), "ok") else (s, "bad-op")
+  | ["cverify", pm, dh, sigs] =>
+    match s with
+    | some (p2, vals) => if pm = "a" ∨ pm = "b" then (s, (step () ["verify", p2 ++ pm, dh, vals, sigs]).2) else (s, "bad-op")
+    | none => (s, "bad-op")
+  | ["cpart", pm, dh, idx, sig] =>
+    match s with
+    | some (p2, vals) => if pm = "a" ∨ pm = "b" then (s, (step () ["part", p2 ++ pm, dh, vals, idx, sig]).2) else (s, "bad-op")
+    | none => (s, "bad-op")
+  | _ => (s, (step () toks).2)
+
 end Goloop.Driver.C29
-def main : IO Unit := Goloop.Proto.run Goloop.Driver.C29.step ()
+def main : IO Unit := Goloop.Proto.run Goloop.Driver.C29.step2 none
